@@ -82,6 +82,9 @@ func LoadWorld() *World {
 		Env: append(os.Environ(), "GOFLAGS=-mod=mod", "GOPROXY=off", "GOSUMDB=off",
 			"GOTOOLCHAIN=local", "GOWORK=off"),
 	}
+	if tags := os.Getenv("VERIF_TAGS"); tags != "" {
+		cfg.BuildFlags = []string{"-tags=" + tags}
+	}
 	pkgs, err := packages.Load(cfg, "./x/...", "./app/...", "./cmd/...")
 	if err != nil {
 		fatalf("packages.Load: %v", err)
